@@ -2,6 +2,7 @@ package main
 
 import (
 	"fmt"
+	"go/constant"
 	"go/token"
 	"strings"
 
@@ -441,6 +442,117 @@ func checkC05(c *Ctx) {
 		}
 	}
 	_ = token.NoPos
+	// ---- C05.6 the two sites that decide the direction agree: halfPipe derives "upload" from its tag, Proxy chooses the
+	// tags - the pipe that reads from the client must be the one halfPipe takes for the upload, the other one not
+	r.Rule("C05.6", "Proxy's tags make halfPipe attribute the client->covert pipe to 'up' and the covert->client pipe to 'down'", 2)
+	{
+		hpf := c.P.Func(repoMod+"/pkg/station/lib", "", "halfPipe")
+		pxf := c.P.Func(repoMod+"/pkg/station/lib", "", "Proxy")
+		test := "" // the constant halfPipe tests its tag against, and how
+		how := ""
+		tagIdx := -1
+		if hpf != nil && hpf.Blocks != nil {
+			eachInstr(hpf, func(in ssa.Instruction) {
+				call, ok := in.(*ssa.Call)
+				if !ok {
+					return
+				}
+				n := calleeName(&call.Call)
+				if (n == "strings.HasPrefix" || n == "strings.HasSuffix" || n == "strings.Contains") && len(call.Call.Args) == 2 {
+					if prm, ok := call.Call.Args[0].(*ssa.Parameter); ok {
+						if cv, ok := constOf(call.Call.Args[1]); ok && cv.Kind() == constant.String {
+							for i, p := range hpf.Params {
+								if p == prm {
+									tagIdx = i
+								}
+							}
+							test, how = constant.StringVal(cv), n
+						}
+					}
+				}
+			})
+		}
+		var gos []*ssa.Go
+		if pxf != nil && pxf.Blocks != nil {
+			eachInstrDeep(pxf, 2, func(in ssa.Instruction, _ deepCtx) {
+				if g, ok := in.(*ssa.Go); ok && g.Call.StaticCallee() == hpf && hpf != nil {
+					gos = append(gos, g)
+				}
+			})
+		}
+		if test == "" || tagIdx < 0 || len(gos) != 2 {
+			r.Unk("C05.6", "direction sites", token.NoPos, "", fmt.Sprintf("halfPipe's tag test (%q) or Proxy's two go halfPipe calls (%d) not found", test, len(gos)))
+		} else {
+			// the constant part of the tag each call passes: a constant, or constant + something / something + constant
+			tagConst := func(v ssa.Value) (prefix, suffix string, whole bool, ok bool) {
+				if cv, isC := constOf(v); isC && cv.Kind() == constant.String {
+					return constant.StringVal(cv), constant.StringVal(cv), true, true
+				}
+				if bo, isB := v.(*ssa.BinOp); isB && bo.Op == token.ADD {
+					if cv, isC := constOf(bo.X); isC && cv.Kind() == constant.String {
+						return constant.StringVal(cv), "", false, true
+					}
+					if cv, isC := constOf(bo.Y); isC && cv.Kind() == constant.String {
+						return "", constant.StringVal(cv), false, true
+					}
+				}
+				return "", "", false, false
+			}
+			takenForUp := func(v ssa.Value) (bool, bool) {
+				pre, suf, whole, ok := tagConst(v)
+				if !ok {
+					return false, false
+				}
+				switch how {
+				case "strings.HasPrefix":
+					if pre == "" && !whole {
+						return false, false // the tag starts with a run-time value
+					}
+					return strings.HasPrefix(pre, test), len(pre) >= len(test) || whole || !strings.HasPrefix(test, pre)
+				case "strings.HasSuffix":
+					if suf == "" && !whole {
+						return false, false
+					}
+					return strings.HasSuffix(suf, test), len(suf) >= len(test) || whole || !strings.HasSuffix(test, suf)
+				default:
+					return strings.Contains(pre+suf, test), whole
+				}
+			}
+			for _, g := range gos {
+				src := pathOf(g.Call.Args[0])
+				fromClient := strings.Contains(strings.ToLower(src), "client")
+				up, decided := takenForUp(g.Call.Args[tagIdx])
+				r.Check(decided && up == fromClient, "C05.6", "Proxy: halfPipe("+firstN(src, 30)+" -> …) is attributed to "+map[bool]string{true: "up", false: "down"}[fromClient], g.Pos(), fnName(pxf),
+					fmt.Sprintf("tag %s; halfPipe tests %s(tag, %q)", firstN(pathOf(g.Call.Args[tagIdx]), 40), how, test),
+					fmt.Sprintf("halfPipe decides the direction with %s(tag, %q) but Proxy passes the tag %s for the pipe reading from %s: its bytes, duration and errors are booked on the wrong side (the reported byte counts no longer equal what was delivered in each direction)", how, test, firstN(pathOf(g.Call.Args[tagIdx]), 40), firstN(src, 30)))
+			}
+		}
+	}
+
+	// ---- C05.5 the relay cannot block itself: no mutex is acquired while it may already be held (sync.Mutex is not
+	// re-entrant: the second acquisition never returns, the direction never reaches wg.Done and Proxy never returns),
+	// and every acquisition is released on all paths
+	r.Rule("C05.5", "nothing reachable from Proxy / halfPipe acquires a mutex it may already hold, or returns holding one", 0)
+	{
+		var roots []*ssa.Function
+		for _, n := range []string{"Proxy", "halfPipe"} {
+			if f := c.P.Func(repoMod+"/pkg/station/lib", "", n); f != nil && f.Blocks != nil {
+				roots = append(roots, f)
+			}
+		}
+		fns := staticClosure(roots, func(f *ssa.Function) bool { return fnPkgPath(f) == repoMod+"/pkg/station/lib" })
+		if len(fns) < 2 {
+			r.Unk("C05.5", "relay functions", token.NoPos, "", "Proxy / halfPipe not found")
+		} else {
+			before := len(r.Findings)
+			checkNoReentrancy(r, "C05.5", fns, nil)
+			checkLockLeaks(r, "C05.5", fns)
+			if len(r.Findings) == before {
+				r.OK("C05.5", "relay path: no re-entrant or leaked mutex acquisition", roots[0].Pos(), fmt.Sprintf("%d functions reachable from Proxy/halfPipe in pkg/station/lib scanned", len(fns)))
+			}
+		}
+	}
+
 }
 
 func keysOf(m map[string]bool) []string {
@@ -634,4 +746,37 @@ func stripLoad(v ssa.Value) ssa.Value {
 		return u.X
 	}
 	return v
+}
+
+
+// staticClosure: roots, their closures, and everything reachable from them through static calls, go and defer
+// statements, restricted to functions accepted by keep.
+func staticClosure(roots []*ssa.Function, keep func(*ssa.Function) bool) []*ssa.Function {
+	seen := map[*ssa.Function]bool{}
+	var out []*ssa.Function
+	var visit func(f *ssa.Function)
+	visit = func(f *ssa.Function) {
+		if f == nil || seen[f] || f.Blocks == nil || !keep(f) {
+			return
+		}
+		seen[f] = true
+		out = append(out, f)
+		for _, a := range f.AnonFuncs {
+			visit(a)
+		}
+		eachInstr(f, func(in ssa.Instruction) {
+			if ci, ok := in.(ssa.CallInstruction); ok {
+				visit(ci.Common().StaticCallee())
+				if mc, ok := ci.Common().Value.(*ssa.MakeClosure); ok {
+					if g, ok := mc.Fn.(*ssa.Function); ok {
+						visit(g)
+					}
+				}
+			}
+		})
+	}
+	for _, f := range roots {
+		visit(f)
+	}
+	return out
 }
